@@ -224,11 +224,21 @@ pub fn c05_cases(seed: u64, first_id: usize, n: usize) -> Vec<Case> {
                 0 => 0x10 + k,
                 1 => 0x7FFF_FFFF_FFFF_0000 + k * 0x40,
                 2 => 0xFFFF_8000 + k * 0x40,
+                // above 4 GiB, with leading zero digits in the low half
+                3 => ((rng.below(0x7FFF) + 1) << 32) | (rng.below(0x0FFF_FFFF) & !0x3F) | (k * 0x40),
+                4 => (1usize << (32 + rng.below(30))) + k * 0x40,
                 _ => addr.next() + rng.below(16),
             };
             t.impl_fns.push(with_address(f, a));
         }
         t.add_to(&mut m);
+        // several impl blocks for one type are one set of functions
+        if i % 3 == 0 && m.impls.len() == 1 && m.impls[0].functions.len() >= 2 {
+            let blk = m.impls.remove(0);
+            let cut = rng.range(1, blk.functions.len() - 1);
+            m.impls.push(FunctionBlock::new(blk.name.as_str(), blk.functions[..cut].to_vec()));
+            m.impls.push(FunctionBlock::new(blk.name.as_str(), blk.functions[cut..].to_vec()));
+        }
         // through the concrete syntax: any spelling of the literals
         let text = crate::render::render_random(&m, &mut rng);
         let m2 = match pyxis::parser::parse_str(&text) {
@@ -457,6 +467,8 @@ pub fn c15_cases(seed: u64, first_id: usize, n: usize) -> Vec<Case> {
         let mut m = Module::new();
         let base = 0x6400_0000 + i * 0x4000;
         let mut next = 0usize;
+        let hi: usize = if i % 4 == 3 { (1 + i % 0x7000) << 32 } else { 0 };
+        let base = if hi != 0 { hi | (0x0001_0000 + (i % 64) * 0x1000) } else { base };
         let mut data = |len: usize| {
             let a = base + next;
             next += (len + 31) / 16 * 16 + 16;
@@ -587,7 +599,15 @@ pub fn negatives(ctx: &mut Ctx, prop: &str) {
                         "index-on-non-virtual"
                     }
                 };
-                t.impl_fns.push(f);
+                // the offending function sits anywhere in a block of 1..4 functions
+                let n_good = rng.below(4);
+                let pos = rng.below(n_good + 1);
+                for k in 0..n_good {
+                    let mut g = func(&mut rng, &format!("good{k}"), Some(Some(false)), 8, 2);
+                    g.attributes.0.push(Attribute::address(0x2100_0000 + k * 0x40));
+                    t.impl_fns.push(g);
+                }
+                t.impl_fns.insert(pos, f);
                 t.add_to(&mut m);
                 must_reject(ctx, prop, kind, vec![(ItemPath::from("kneg_m"), m)], *rng.pick(&[4, 8]));
             }
@@ -615,7 +635,13 @@ pub fn negatives(ctx: &mut Ctx, prop: &str) {
         "C15" => {
             for _ in 0..n {
                 let mut m = Module::new();
-                m.extern_values.push(ExternValue::new(Visibility::Public, "ev", arg_type(&mut rng), Attributes(if rng.coin() { vec![] } else { vec![Attribute::size(4)] })));
+                // the address-less one sits anywhere among 0..3 properly addressed ones
+                let n_good = rng.below(4);
+                let pos = rng.below(n_good + 1);
+                for k in 0..n_good {
+                    m.extern_values.push(ExternValue::new(Visibility::Public, &format!("good{k}"), arg_type(&mut rng), [Attribute::address(0x6500_0000 + k * 0x40)]));
+                }
+                m.extern_values.insert(pos, ExternValue::new(Visibility::Public, "ev", arg_type(&mut rng), Attributes(if rng.coin() { vec![] } else { vec![Attribute::size(4)] })));
                 must_reject(ctx, prop, "extern-value-without-address", vec![(ItemPath::from("kneg_m"), m)], *rng.pick(&[4, 8]));
             }
         }
